@@ -2,7 +2,8 @@
 """Re-trial of every kept seeded change against the current /repo HEAD and the current checks
 (development aid).  For each /verif/seeded/<Cxx-n>/ : scratch worktree of /repo (outside /repo and /verif),
 tools/trial.py steps (demo on the clean tree, unedited suite + demo with the patch, the listed quick checks with
-VERIF_REPO=<worktree>), meta.json["trial"] rewritten.  Usage: seeded_retrial.py [lanes] [id ...]"""
+VERIF_REPO=<worktree>), meta.json["trial"] rewritten.  Usage: seeded_retrial.py [lanes] [--checks-only] [id ...]   (--checks-only: the demo / suite results of the kept meta.json
+are reused — valid while /repo's HEAD is unchanged — and only the checks are re-run against the patched worktree)"""
 import json
 import os
 import subprocess
@@ -17,6 +18,9 @@ ALSO = {"C07-3": ["C14"], "C03-3": ["C14"], "C08-4": ["C09"], "C08-3": ["C18"], 
         "C05-7": ["C14"], "C04-7": ["C01", "C11"], "C17-7": ["C10"], "C14-8": ["C12"], "C05-8": ["C03"]}
 
 
+CHECKS_ONLY = False
+
+
 def run(lane, ids):
     wt = f"/tmp/seedtrial{lane}"
     subprocess.run(["git", "-C", "/repo", "worktree", "remove", "--force", wt], capture_output=True)
@@ -25,8 +29,17 @@ def run(lane, ids):
     try:
         for sid in ids:
             d = os.path.join(V, "seeded", sid)
-            props = [sid[:3]] + ALSO.get(sid, [])
-            r = subprocess.run([sys.executable, os.path.join(V, "tools", "trial.py"), d, wt, ",".join(props), "quick", "--keep", sid],
+            try:
+                meta = json.load(open(os.path.join(d, "meta.json")))
+            except Exception:
+                meta = {}
+            own = sid[:3] if sid[0] == "C" else str(meta.get("property", ""))[:3]
+            props = []
+            for q in [own] + ALSO.get(sid, []) + list((meta.get("trial") or {}).get("caught_by") or []):
+                if q and q not in props:
+                    props.append(q)
+            r = subprocess.run([sys.executable, os.path.join(V, "tools", "trial.py"), d, wt, ",".join(props), "quick", "--keep", sid]
+                               + (["--checks-only"] if CHECKS_ONLY else []),
                                capture_output=True, text=True)
             txt = r.stdout
             try:
@@ -41,10 +54,14 @@ def run(lane, ids):
 
 
 def main():
+    global CHECKS_ONLY
     a = sys.argv[1:]
+    if "--checks-only" in a:
+        CHECKS_ONLY = True
+        a.remove("--checks-only")
     lanes = int(a[0]) if a and a[0].isdigit() else 3
     ids = [x for x in a if not x.isdigit()] or sorted(x for x in os.listdir(os.path.join(V, "seeded"))
-                                                      if x[0] == "C" and os.path.isdir(os.path.join(V, "seeded", x)))
+                                                      if x[0] in "CP" and os.path.isdir(os.path.join(V, "seeded", x)))
     parts = [ids[i::lanes] for i in range(lanes)]
     with ThreadPoolExecutor(lanes) as ex:
         res = [x for part in ex.map(lambda t: run(*t), enumerate(parts)) for x in part]
